@@ -14,8 +14,8 @@ CHECKS = {
                 text="sort_as_subsets is proved for every finite graph and item order (67 obligations from the current source): each yielded subset is exactly the ready items in input order, exhaustion emits every item once with predecessors strictly earlier, and exhaustion is impossible while a non-empty pred-closed set exists; at the raise the remaining set is a non-empty pred-closed subset (cycle by the Lean lemma). Bounded complement: same contract on all digraphs <= 3/4 nodes.",
                 note="assumed: finite sequences, value identity for elements; Lean lemma pred_closed_iff_cycle; termination not proved; sort/find_cycles/_gen_edges: see evidence for which are under proof"),
     "C25": dict(level="proof", technique=PROOF_TECH, design="DESIGN.md §5 C25",
-                text="QueuePool overflow accounting (_inc_overflow/_dec_overflow/_do_get/_do_return_conn/checkedout) and util.queue.Queue (put/get all three blocking modes, _put/_get/_full/_empty) are proved against a slot-accounting invariant slots == pool_size + _overflow <= pool_size + max_overflow and the queue representation invariant, sequentially per critical section, plus a syntactic lock-discipline obligation on every store to _overflow.",
-                note="schedules not explored (monitor reading); assumed contracts on _create_connection, record.close() (Full path) and Condition.wait(); 'one connection never held by two checkouts' beyond the queue contract is not decided; other pool classes not covered"),
+                text="QueuePool overflow accounting (_inc_overflow/_dec_overflow/_do_get/_do_return_conn) is proved in a monitor-with-interference model: other threads may change the shared counters and the queue at every statement outside the lock, at lock acquisition and around calls out of the pool, subject to the monitor invariant slots + pending == pool_size + _overflow, _overflow <= max_overflow, which is proved before every such point and at every exit (ghost claim accounting) — so slots <= pool_size + max_overflow under any schedule of these atomic steps; util.queue.Queue (put/get in all three blocking modes) against its representation invariant; plus a syntactic lock-discipline obligation.",
+                note="interleaving granularity = statements outside locks / whole critical sections (no explicit schedule enumeration); assumed contracts on _create_connection, record.close() (Full path) and Condition.wait(); 'one connection never held by two checkouts' beyond the queue contract is not decided; other pool classes not covered"),
     "C34": dict(level="proof", technique=PROOF_TECH, design="DESIGN.md §5 C34",
                 text="every method of the _WeakInstanceDict container (add, replace, _add_unpresent, get, __getitem__, __contains__, contains_state, fast_get_state, safe_discard, _fast_discard, _manage_incoming/removed_state) is proved against a whole-map postcondition: add never overwrites a live different instance (raises, map unchanged), discards remove only the given state, every other key is untouched.",
                 note="weakref liveness constant during a call (GC-race arms proved unreachable sequentially); loading/Session.get paths and the database are outside the proof (bounded complement)"),
